@@ -21,7 +21,7 @@ type chanState struct {
 func chanPtr(ch any) uintptr {
 	v := reflect.ValueOf(ch)
 	if !v.IsValid() || v.Kind() != reflect.Chan {
-		panic(fmt.Sprintf("vrt: not a channel: %T", ch))
+		Infra(fmt.Sprintf("not a channel: %T", ch))
 	}
 	return v.Pointer()
 }
